@@ -65,3 +65,8 @@ package contracts
 //@   trusted documented behaviour of strings.HasPrefix
 //@   pure
 //@   ensures result <==> (len(s) >= len(prefix) && forall k in 0..len(prefix) :: s[k] == prefix[k])
+
+//@ func strings.Index
+//@   trusted documented behaviour of strings.Index: -1, or the offset of an occurrence of substr in s
+//@   pure
+//@   ensures -1 <= result && (result >= 0 ==> result + len(substr) <= len(s))
